@@ -89,6 +89,11 @@ def model_str(model, s):
         c = s[i]
         if strings.is_placeholder(c):
             kind, t = reg['terms'][ord(c) - strings.PUA_BASE]
+            if kind == 'utf8m':
+                bs = bytes(x if isinstance(x, int) else model.eval(x, model_completion=True).as_long() for x in t)
+                out.append(bs.decode('utf-8', errors='replace'))
+                i += 1
+                continue
             v = model.eval(t, model_completion=True).as_long()
             if kind == 'hex':
                 out.append('%02x' % v)
